@@ -4,7 +4,7 @@ CONSTANTS
   MaxPackets = 1
   NR = 0
   RFns <- RFnsRoute
-  Crtps <- NoCrtps
+  SendSets <- NoSenders
   MaxSends = 0
   Mode = "transport"
   LateRegister = FALSE
